@@ -9,8 +9,8 @@
 (***************************************************************************)
 EXTENDS Alg, Json, IOUtils, TLC
 Rec == ndJsonDeserialize(IOEnv.TRACE)
-VARIABLES l, gens
-vars == <<l, gens>>
+VARIABLES l, gens, srcs
+vars == <<l, gens, srcs>>
 Ev == Rec[l]
 Has(r, f) == f \in DOMAIN r
 
@@ -23,18 +23,59 @@ IsEvent(e) == l <= Len(Rec) /\ Ev.e = e /\ l' = l + 1
 NoPanic == IF ~Has(Ev, "panic") THEN TRUE ELSE PrintT(<<"MISMATCH", l, "panic", Ev.panic>>) /\ FALSE
 ObsOk(k, s) == Has(Ev, "obs") /\ Has(Ev.obs, "s") => Expect("state image", AlgImage(k, s), Ev.obs.s)
 
-TrReset == IsEvent("reset") /\ gens' = <<>>
+TrReset == IsEvent("reset") /\ gens' = <<>> /\ srcs' = <<>>
 
-(* from_seed with a seed that is not all zero: the state is the seed's words *)
+(* from_seed through the seeding protocol (module Seeding): the all-zero seed of a linear *)
+(* generator is remapped as documented, every other seed is used verbatim                 *)
 TrFromSeed ==
   /\ IsEvent("from_seed") /\ NoPanic
   /\ Ev.kind \in AlgKinds
   /\ Len(Ev.seed) = AlgSeedLen(Ev.kind)
-  /\ LET s == AlgOfSeed(Ev.kind, Ev.seed) IN
-       /\ ~(Ev.kind \in LinearKinds /\ AlgIsZero(Ev.kind, s))   \* zero seeds: module Seeding
+  /\ LET s == ResolveD(Ev.kind, FromSeedD(SeedClass(Ev.kind), Ev.seed)) IN
        /\ Expect("ok", TRUE, Ev.ok)
        /\ ObsOk(Ev.kind, s)
        /\ gens' = (Ev.g :> [k |-> Ev.kind, s |-> s]) @@ gens
+  /\ UNCHANGED srcs
+
+TrSeedFromU64 ==
+  /\ IsEvent("seed_from_u64") /\ NoPanic
+  /\ Ev.kind \in AlgKinds
+  /\ LET s == SeedFromU64State(Ev.kind, Ev.x) IN
+       /\ Expect("ok", TRUE, Ev.ok)
+       /\ ObsOk(Ev.kind, s)
+       /\ gens' = (Ev.g :> [k |-> Ev.kind, s |-> s]) @@ gens
+  /\ UNCHANGED srcs
+
+(* byte sources and from_rng / try_from_rng *)
+TrSrc ==
+  /\ IsEvent("src")
+  /\ srcs' = (Ev.s :> [bytes |-> Ev.bytes, pos |-> 0, calls |-> 0,
+                       fallible |-> (Has(Ev, "fallible") /\ Ev.fallible),
+                       failAt |-> IF Has(Ev, "fail_at") THEN Ev.fail_at ELSE 0,
+                       partial |-> IF Has(Ev, "partial") THEN Ev.partial ELSE 0,
+                       sticky |-> (Has(Ev, "sticky") /\ Ev.sticky)]) @@ srcs
+  /\ UNCHANGED gens
+LogDelivered(lg) == FoldLeft(LAMBDA a, e : a + e[2], 0, lg)
+ImplLogFailed(lg) == \E i \in 1..Len(lg) : lg[i][1] \in {"try_fill_bytes!", "try_next_u32!", "try_next_u64!"}
+ImplLogFillOnly(lg) == \A i \in 1..Len(lg) : lg[i][1] \in {"fill_bytes", "try_fill_bytes!"}
+TrFromRng(e) ==
+  /\ IsEvent(e) /\ NoPanic
+  /\ Ev.kind \in AlgKinds /\ Ev.s \in DOMAIN srcs
+  /\ (e = "from_rng") = ~srcs[Ev.s].fallible
+  /\ LET k == Ev.kind
+         r == FromRngD(SeedClass(k), AlgSeedLen(k), FromRngLen(k), srcs[Ev.s])
+     IN /\ Expect("ok", r.ok, Ev.ok)
+        /\ Expect("source position after", r.src.pos, Ev.src_pos)
+        /\ Expect("bytes delivered by the source", LogDelivered(r.log), LogDelivered(Ev.src_log))
+        /\ Expect("source failed during the call", ~r.ok, ImplLogFailed(Ev.src_log))
+        /\ Expect("only fill_bytes is used", TRUE, ImplLogFillOnly(Ev.src_log))
+        /\ srcs' = [srcs EXCEPT ![Ev.s] = [r.src EXCEPT !.calls = Ev.src_calls]]
+        /\ IF r.ok
+           THEN LET s == ResolveD(k, r.gen) IN
+                /\ ObsOk(k, s)
+                /\ gens' = (Ev.g :> [k |-> k, s |-> s]) @@ gens
+           ELSE /\ Expect("an error carries no generator", FALSE, Has(Ev, "obs"))
+                /\ gens' = [g \in (DOMAIN gens) \ {Ev.g} |-> gens[g]]
 
 (* native-width outputs, singly or n at a time *)
 Native(k, e) == \/ k = "SplitMix64" /\ e = "next_u64"
@@ -50,6 +91,7 @@ TrNext(e) ==
           IN /\ Expect("ret", IF Has(Ev, "n") THEN r[2] ELSE r[2][1], Ev.ret)
              /\ ObsOk(G.k, r[1])
              /\ gens' = [gens EXCEPT ![Ev.g].s = r[1]]
+  /\ UNCHANGED srcs
 
 (* SplitMix64::next_u32: the Mix4 finalizer of the same counter step *)
 TrSmNext32 ==
@@ -61,6 +103,7 @@ TrSmNext32 ==
      IN /\ Expect("ret", IF Has(Ev, "n") THEN r[2] ELSE r[2][1], Ev.ret)
         /\ ObsOk("SplitMix64", r[1])
         /\ gens' = [gens EXCEPT ![Ev.g].s = r[1]]
+  /\ UNCHANGED srcs
 
 TrJump(e) ==
   /\ IsEvent(e) /\ NoPanic
@@ -71,6 +114,7 @@ TrJump(e) ==
             /\ Expect("ok", TRUE, Ev.ok)
             /\ ObsOk(G.k, s2)
             /\ gens' = [gens EXCEPT ![Ev.g].s = s2]
+  /\ UNCHANGED srcs
 
 (* == between two tracked generators must agree with equality of reference states *)
 TrEq ==
@@ -78,11 +122,13 @@ TrEq ==
   /\ Ev.a \in DOMAIN gens /\ Ev.b \in DOMAIN gens
   /\ gens[Ev.a].k = gens[Ev.b].k
   /\ Expect("eq", gens[Ev.a].s = gens[Ev.b].s, Ev.ret)
-  /\ UNCHANGED gens
+  /\ UNCHANGED <<gens, srcs>>
 
-Init == l = 1 /\ gens = <<>>
-Next == \/ TrReset \/ TrFromSeed \/ TrNext("next_u32") \/ TrNext("next_u64") \/ TrSmNext32
-        \/ TrJump("jump") \/ TrJump("long_jump") \/ TrEq
+TrDrop == IsEvent("drop") /\ gens' = [g \in (DOMAIN gens) \ {Ev.g} |-> gens[g]] /\ UNCHANGED srcs
+
+Init == l = 1 /\ gens = <<>> /\ srcs = <<>>
+Next == \/ TrReset \/ TrFromSeed \/ TrSeedFromU64 \/ TrSrc \/ TrFromRng("from_rng") \/ TrFromRng("try_from_rng") \/ TrNext("next_u32") \/ TrNext("next_u64") \/ TrSmNext32
+        \/ TrJump("jump") \/ TrJump("long_jump") \/ TrEq \/ TrDrop
 Spec == Init /\ [][Next]_vars
 
 Accepted ==
